@@ -36,8 +36,23 @@ func digits(t *rapid.T, min, max int, label string) string {
 // Number draws a JSON number literal of every shape the property lists.
 func Number(t *rapid.T) string {
 	var b strings.Builder
-	kind := sim.Weighted(t, "numkind", 4, 3, 3, 3, 2)
+	kind := sim.Weighted(t, "numkind", 4, 3, 3, 3, 2, 1)
 	switch kind {
+	case 5: // far beyond every accumulator: the textual big-number path with a growing buffer
+		if sim.Intn(t, 3, "neg") == 2 {
+			b.WriteByte('-')
+		}
+		b.WriteByte(byte('1' + sim.Intn(t, 9, "lead")))
+		b.WriteString(strings.Repeat(digits(t, 1, 9, "d"), 3+sim.Intn(t, 40, "rep")))
+		if sim.Bool(t, "hugefrac") {
+			b.WriteByte('.')
+			b.WriteString(strings.Repeat(digits(t, 1, 9, "f"), 1+sim.Intn(t, 40, "rep")))
+		}
+		if sim.Intn(t, 3, "hugeexp") == 2 {
+			b.WriteString([]string{"e", "E-", "e+"}[sim.Intn(t, 3, "e")])
+			b.WriteString(digits(t, 1, 4, "e"))
+		}
+		return b.String()
 	case 0: // small int
 		if sim.Intn(t, 4, "neg") == 3 {
 			b.WriteByte('-')
